@@ -61,6 +61,9 @@ fn rec(ctx: &Ctx, e: &Entry, sw: &Sweep, suffix: &str, buf: &mut String, depth: 
 pub fn run_sweeps(ctx: &Ctx, part: &str, sweeps: &[Sweep]) -> u64 {
   let mut items = Vec::new();
   for s in sweeps {
+    if !crate::only(s.entry) {
+      continue;
+    }
     let len = ctx.by_tier(s.len.0, s.len.1);
     for f in 0..s.frames.len() {
       items.push(Item { sweep: s, frame: f, first: None, len });
@@ -104,6 +107,8 @@ pub fn run_sweeps(ctx: &Ctx, part: &str, sweeps: &[Sweep]) -> u64 {
 
 /// Run an explicit list of (entry, input) cases in parallel.
 pub fn run_list(ctx: &Ctx, part: &str, cases: &[(&'static str, String)], detail: vx::Value) {
+  let cases: Vec<(&'static str, String)> = cases.iter().filter(|c| crate::only(c.0)).cloned().collect();
+  let cases = &cases[..];
   let chunks: Vec<&[(&'static str, String)]> = cases.chunks(4096).collect();
   let (n, _, _, acc) = crate::par_chunks(ctx, &chunks, |ch, local| {
     for (en, s) in ch.iter() {
